@@ -399,6 +399,34 @@ def script_text_edit(rng, tx, nlines, allow_edm):
         tx.cut()
 
 
+def premode_data(rng, f, n):
+    """printable data (and NUL pairs, now and then a PAC / BS / CR, which need a mode too) of field `f` that is NOT preceded by
+    any mode-setting command of that field: the standard has no service to put it into, it is discarded.  Every few pairs the
+    four pages of the field are fetched (they must stay blank) """
+    out = []
+    pages = ["fetch %d" % (g + 1) for g in (2 * f, 2 * f + 1, 2 * f + 4, 2 * f + 5)]
+    for _ in range(n):
+        r = rng.random()
+        if r < 0.7:
+            t = words(rng, rng.randrange(2, 9))
+            if len(t) % 2:
+                t.append(0)
+            out += ["cc %d %02x%02x" % (f, par(t[i]), par(t[i + 1])) for i in range(0, len(t), 2)]
+        elif r < 0.8:
+            if f == 0:
+                out += ["cc 0 8080"] * rng.randrange(1, 4)
+        elif r < 0.9:
+            c1low, hi = PAC_ROW[rng.randrange(15)]
+            l = "cc %d %02x%02x" % (f, par(0x10 | (rng.randrange(2) << 3) | c1low), par(0x40 | (hi << 5) | rng.randrange(32)))
+            out += [l, l] if f == 0 else [l]
+        else:
+            l = "cc %d %02x%02x" % (f, par(0x14 | (rng.randrange(2) << 3)), par(MISC[rng.choice(["BS", "CR", "DER"])]))
+            out += [l, l] if f == 0 else [l]
+        if rng.random() < 0.4:
+            out += rng.sample(pages, rng.randrange(1, 5))
+    return out + pages
+
+
 def interleave(rng, streams):
     """streams: list of lists of units; units of one stream stay in order"""
     idx = [0] * len(streams)
@@ -473,8 +501,8 @@ class C08(verif.Spec):
                        "proved with them: event_on_change_repaired)",
                        "Zvbi.Props.C08Paint.fields_independent_full (false with the shared curr_chan: fields_independent_counterexample, F44; "
                        "for the per-field curr_chan the one-step frame fields_independent_partial is proved, the trace-level projection is not)"]
-    trusted_base = ["translate/gen_cc.py (constants, tables, seven source facts: chsw statement order, PAC window clamp, RUx clear(), CR update guard, "
-                    "mid-row italics colour, curr_chan per field, EDM/ENM re-addressed to the caption channel; constants cross-checked by `layout`/`st`/`glob`, the facts by the correspondence run)",
+    trusted_base = ["translate/gen_cc.py (constants, tables, eight source facts: chsw statement order, PAC window clamp, RUx clear(), CR update guard, "
+                    "mid-row italics colour, curr_chan per field, EDM/ENM re-addressed to the caption channel, curr_chan reset on channel switch; constants cross-checked by `layout`/`st`/`glob`, the facts by the correspondence run)",
                     "harness/cc_harness.c + lean/Driver/Cc.lean (correspondence incl. internal scalars of all nine channels)",
                     "Cc/Spec.lean Eia608: my transcription of 47 CFR 15.119; solid-space rule as libzvbi lays it out"]
 
@@ -557,6 +585,26 @@ class C08(verif.Spec):
             # a PAC follows the switch: vbi_caption_channel_switched keeps underline/italic/flash of the old pen
             c += field_script(rng, f, [(k, rng.choice(kinds))], force_pac=True)
             add(c + END_DUMP, "chsw")
+        # 5b. data of one field BEFORE any mode-setting command of that field (fresh decoder, or after a channel switch / reset
+        #     that followed any history), pair by pair between the pairs of an active service of the OTHER field:
+        #     the data is discarded, the field's four pages stay blank, the other field's captions are unaffected
+        for _ in range(70 * N):
+            fa = 0 if rng.random() < 0.6 else 1   # field with the active service
+            fb = 1 - fa                            # field without a mode command
+            k = 0 if rng.random() < 0.6 else 1
+            c = []
+            tag = "premode"
+            if fixed and rng.random() < 0.5:
+                # any history on both fields, then the reset
+                pk = rng.choice(kinds)
+                pre = merge_fields(rng, field_script(rng, fb, [(rng.randrange(2), pk)]),
+                                   field_script(rng, fa, [(rng.randrange(2), rng.choice(kinds))]) if rng.random() < 0.5 else [])
+                c += [l for l in pre if not l.startswith("fetch") and not l.startswith("st ")] + ["chsw"]
+                if pk == "text":
+                    tag = "premode-chsw-text"   # a text service was current on the silent field before the reset (finding chsw-curr-chan)
+            a = field_script(rng, fa, [(k, rng.choice(kinds))], force_pac=True)
+            b = premode_data(rng, fb, rng.randrange(2, 9))
+            add(c + merge_fields(rng, a, b) + END_DUMP, tag)
         # 6. malformed: random control pairs (valid parity, any second byte), random bytes, bad op lines
         for _ in range(260 * N):
             c = []
@@ -754,6 +802,8 @@ class C08(verif.Spec):
                         d = self.lenient_diff(got, want, mem)
                         if d is None:
                             continue
+                    if tag in ("premode-chsw-text", "chsw-curr"):
+                        return "chsw-curr-chan: page %s shows data received after a channel switch without a mode command (curr_chan survives the reset)" % op.split()[1]
                     if tag in ("text-edm", "edm-text"):
                         return "EDM-in-text-mode: page %s differs from Eia608 after Erase Displayed Memory in a text transmission" % op.split()[1]
                     return "page differs from Eia608 [%s] at op %d (%s)%s: got %s want %s" % (tag, n, op, d or "", got[:120], want[:120])
@@ -787,7 +837,7 @@ class C08(verif.Spec):
             return " row %d col %d" % (i // 34, i % 34)
         return None
 
-    CORPUS_TAGS = {"f18-": "xfield", "f20-": "f20", "wf-": "wf-corpus", "edm-text-": "edm-text"}
+    CORPUS_TAGS = {"f18-": "xfield", "f20-": "f20", "wf-": "wf-corpus", "edm-text-": "edm-text", "chsw-curr-": "chsw-curr"}
 
     def corpus_expect(self, case, key):
         """corpus files named f18-* / wf-* are compared with the reference model too"""
@@ -861,6 +911,8 @@ class C08(verif.Spec):
             return "F18-cross-field-routing"
         if what.startswith("F20"):
             return "F20-midrow-italics-resets-colour"
+        if what.startswith("chsw-curr-chan"):
+            return "chsw-keeps-curr-chan"
         if what.startswith("EDM-in-text-mode"):
             return "EDM-in-text-mode-erases-text-not-caption"
         m = re.match(r"event_on_change: page \d+ changed without a caption event( \(after \w+\))?", what)
